@@ -470,3 +470,295 @@ func loopStmtOf(w *World, fn *ssa.Function, l *natLoop) ast.Stmt {
 	}
 	return nil
 }
+
+// RunActionProgress: the nested-action loop of applyAtRecursively works off a
+// stack of records, each with a list of pending actions.  Every iteration
+// must either pop a record or remove the action it looked at; a path back to
+// the loop head that does neither looks at the same action again and again
+// until the action budget is used up, and the budget handler then discards
+// all remaining actions, including valid ones.
+func RunActionProgress(w *World, r *Report) {
+	r.Rule("actionprogress: in (*Context).applyAtRecursively every path around the nested-action loop passes a store that shortens ctx.stack (a record is popped) or a store that shortens the Actions list of the top record (the action is consumed): an action that is skipped — sequence index or lookup index out of range — is consumed all the same")
+	fn := w.Func("(*opentype/gtab.Context).applyAtRecursively")
+	if fn == nil {
+		r.Fatal("(*gtab.Context).applyAtRecursively does not resolve")
+		return
+	}
+	// progress stores
+	progress := map[*ssa.BasicBlock]bool{}
+	for _, b := range fn.Blocks {
+		for _, in := range b.Instrs {
+			st, ok := in.(*ssa.Store)
+			if !ok {
+				continue
+			}
+			fa, ok := st.Addr.(*ssa.FieldAddr)
+			if !ok {
+				continue
+			}
+			if sl, ok := st.Val.(*ssa.Slice); ok {
+				switch fieldName(fa) {
+				case "stack":
+					if sl.High != nil && sl.Low == nil {
+						progress[b] = true
+					}
+				case "Actions":
+					if sl.Low != nil {
+						progress[b] = true
+					}
+				}
+			}
+		}
+	}
+	n := 0
+	for _, l := range naturalLoops(fn) {
+		// the action loop: its condition reads len(ctx.stack)
+		isAction := false
+		for _, in := range l.head.Instrs {
+			if u, ok := in.(*ssa.UnOp); ok {
+				if fa, ok := u.X.(*ssa.FieldAddr); ok && fieldName(fa) == "stack" {
+					isAction = true
+				}
+			}
+		}
+		if !isAction {
+			continue
+		}
+		n++
+		key := r.MkKey("actionprogress", fnName(fn), "nested-action loop")
+		// is there a path head -> latch that avoids all progress blocks?
+		var badLatch *ssa.BasicBlock
+		for _, latch := range l.latches {
+			seen := map[*ssa.BasicBlock]bool{}
+			var stack []*ssa.BasicBlock
+			for _, s := range l.head.Succs {
+				if l.body[s] {
+					stack = append(stack, s)
+				}
+			}
+			for len(stack) > 0 {
+				b := stack[len(stack)-1]
+				stack = stack[:len(stack)-1]
+				if seen[b] || !l.body[b] || progress[b] || b == l.head {
+					continue
+				}
+				seen[b] = true
+				if b == latch {
+					badLatch = latch
+					break
+				}
+				stack = append(stack, b.Succs...)
+			}
+		}
+		if badLatch == nil {
+			r.OK("actionprogress", key, w.Pos(l.head.Instrs[0].Pos()), "every iteration pops a record or consumes an action")
+		} else {
+			pos := token.NoPos
+			for _, in := range badLatch.Instrs {
+				if in.Pos().IsValid() {
+					pos = in.Pos()
+				}
+			}
+			r.Fail("actionprogress", key, w.Pos(pos), "an iteration can return to the loop head without popping a record or consuming the action it inspected (a `continue` before the action is removed): the same action is inspected until the budget of 64 is used up and all remaining actions are discarded", nil)
+		}
+	}
+	if n == 0 {
+		r.Fail("actionprogress", r.MkKey("actionprogress", fnName(fn), "nested-action loop"), w.Pos(fn.Pos()), "the loop over ctx.stack was not found", nil)
+	}
+	r.Floor("actionprogress", 1)
+}
+
+// RunMergeTails: a two-pointer loop `for i < len(A) && j < len(B)` stops as
+// soon as one sequence is exhausted.  If advancing through a sequence has an
+// effect that outlives the loop (a counter is updated, elements are
+// rewritten), the rest of that sequence must be worked off after the loop;
+// handling the tail of one sequence and not of the other is the classic slip.
+func RunMergeTails(w *World, r *Report, fns []*ssa.Function) {
+	r.Rule("mergetails: after a loop whose condition is i < len(A) && j < len(B), each of the two indices whose advance inside the loop is accompanied by a write (to a loop-carried variable other than the indices, or to memory) is continued by a following loop over the rest of its sequence — in fixStackMerge both the remaining merged positions (they still shorten EndPos) and the remaining input positions (they still shift)")
+	for _, fn := range fns {
+		if fn.Blocks == nil {
+			continue
+		}
+		loops := naturalLoops(fn)
+		for _, l := range loops {
+			// header chain: head: if i < len(A) -> b1 else exit; b1: if j < len(B) -> body else exit
+			idx := twoPointerIndices(l)
+			if len(idx) != 2 {
+				continue
+			}
+			for _, ph := range idx {
+				key := r.MkKey("mergetails", fnName(fn), "index "+ph.Comment)
+				// does the advance of this index come with an effect?
+				effect := false
+				for i, e := range ph.Edges {
+					pred := l.head.Preds[i]
+					if !l.body[pred] || e == ssa.Value(ph) {
+						continue
+					}
+					// blocks where this index is incremented: the definition block of e (through phis)
+					incs := map[*ssa.BasicBlock]bool{}
+					for _, db := range incBlocks(e, ph, l, map[ssa.Value]bool{}) {
+						incs[db] = true
+					}
+					// region: blocks of the body from which the loop head cannot be reached again without passing an increment of this index
+					escape := map[*ssa.BasicBlock]bool{}
+					var stack []*ssa.BasicBlock
+					for _, lt := range l.latches {
+						if !incs[lt] {
+							stack = append(stack, lt)
+						}
+					}
+					for len(stack) > 0 {
+						bb := stack[len(stack)-1]
+						stack = stack[:len(stack)-1]
+						if escape[bb] || !l.body[bb] || incs[bb] {
+							continue
+						}
+						escape[bb] = true
+						for _, pr := range bb.Preds {
+							stack = append(stack, pr)
+						}
+					}
+					for bb := range l.body {
+						if bb != l.head && !escape[bb] && blockHasEffect(bb, l, idx) {
+							effect = true
+						}
+					}
+				}
+				if !effect {
+					r.OK("mergetails", key, w.Pos(ph.Pos()), "advancing this index has no lasting effect")
+					continue
+				}
+				// a later loop whose head phi continues from this one
+				drained := false
+				for _, l2 := range loops {
+					if l2 == l || !l.head.Dominates(l2.head) || l.body[l2.head] {
+						continue
+					}
+					for _, in := range l2.head.Instrs {
+						p2, ok := in.(*ssa.Phi)
+						if !ok {
+							break
+						}
+						for _, e := range p2.Edges {
+							if e == ssa.Value(ph) {
+								drained = true
+							}
+						}
+					}
+				}
+				if drained {
+					r.OK("mergetails", key, w.Pos(ph.Pos()), "the rest of the sequence is worked off by a following loop")
+				} else {
+					r.Fail("mergetails", key, w.Pos(ph.Pos()), "the two-pointer loop can stop with elements of the sequence indexed by "+ph.Comment+" left over, and no following loop continues from "+ph.Comment+": their effect (counted or rewritten inside the loop) is lost for the tail", nil)
+				}
+			}
+		}
+	}
+}
+
+func twoPointerIndices(l *natLoop) []*ssa.Phi {
+	var out []*ssa.Phi
+	b := l.head
+	for depth := 0; depth < 2; depth++ {
+		if len(b.Instrs) == 0 {
+			return nil
+		}
+		ifi, ok := b.Instrs[len(b.Instrs)-1].(*ssa.If)
+		if !ok {
+			return nil
+		}
+		cmp, ok := ifi.Cond.(*ssa.BinOp)
+		if !ok || cmp.Op != token.LSS {
+			return nil
+		}
+		ph, ok := cmp.X.(*ssa.Phi)
+		if !ok || ph.Block() != l.head {
+			return nil
+		}
+		call, ok := cmp.Y.(*ssa.Call)
+		if !ok {
+			return nil
+		}
+		if bi, ok := call.Call.Value.(*ssa.Builtin); !ok || bi.Name() != "len" {
+			return nil
+		}
+		out = append(out, ph)
+		next := b.Succs[0]
+		if !l.body[next] {
+			return nil
+		}
+		b = next
+	}
+	return out
+}
+
+// incBlocks: the blocks where the value flowing back into ph is computed as ph + c.
+func incBlocks(v ssa.Value, ph *ssa.Phi, l *natLoop, seen map[ssa.Value]bool) []*ssa.BasicBlock {
+	if seen[v] {
+		return nil
+	}
+	seen[v] = true
+	switch x := v.(type) {
+	case *ssa.BinOp:
+		if x.Op == token.ADD && x.X == ssa.Value(ph) {
+			return []*ssa.BasicBlock{x.Block()}
+		}
+	case *ssa.Phi:
+		var out []*ssa.BasicBlock
+		for _, e := range x.Edges {
+			out = append(out, incBlocks(e, ph, l, seen)...)
+		}
+		return out
+	}
+	return nil
+}
+
+// blockHasEffect: the block, or a block of the loop that it dominates or that
+// dominates it within the same branch, writes memory or feeds a loop-carried
+// variable other than the indices.
+func blockHasEffect(b *ssa.BasicBlock, l *natLoop, idx []*ssa.Phi) bool {
+	isIdx := func(v ssa.Value) bool {
+		for _, p := range idx {
+			if v == ssa.Value(p) {
+				return true
+			}
+		}
+		return false
+	}
+	branch := map[*ssa.BasicBlock]bool{b: true}
+	for bb := range branch {
+		for _, in := range bb.Instrs {
+			switch x := in.(type) {
+			case *ssa.Store, *ssa.MapUpdate:
+				return true
+			case *ssa.BinOp:
+				// x feeds a head phi that is not one of the indices
+				if x.Referrers() != nil {
+					for _, ref := range *x.Referrers() {
+						if p, ok := ref.(*ssa.Phi); ok && !isIdx(p) {
+							for hp := p; hp != nil; {
+								if hp.Block() == l.head {
+									return true
+								}
+								next := (*ssa.Phi)(nil)
+								if hp.Referrers() != nil {
+									for _, r2 := range *hp.Referrers() {
+										if q, ok := r2.(*ssa.Phi); ok && q != hp {
+											next = q
+										}
+									}
+								}
+								if next == nil || next == p {
+									break
+								}
+								hp = next
+							}
+						}
+					}
+				}
+			}
+		}
+	}
+	return false
+}
